@@ -49,15 +49,25 @@ pub struct Case {
 
 pub struct Prec {
     pub max_instr: usize,
-    /// where member `a` lives: 0 named struct field | 1 tuple struct field | 2 field of a named enum variant | 3 field of a tuple enum variant
+    /// where the instructions live: 0 named struct field | 1 tuple struct field | 2 field of a named enum variant |
+    /// 3 field of a tuple enum variant | 4 an enum variant itself (variant-level instructions) |
+    /// 5 a member listed inside a parameterised `#[parent(..)]` (nested `[instr(..)]` form)
     pub host: usize,
 }
 
-pub const HOSTS: [&str; 4] = ["named-struct", "tuple-struct", "enum-named-variant", "enum-tuple-variant"];
+pub const HOSTS: [&str; 6] = ["named-struct", "tuple-struct", "enum-named-variant", "enum-tuple-variant", "enum-variant", "nested-parent"];
+
+fn host_is_enum(host: usize) -> bool {
+    (2..=4).contains(&host)
+}
 
 /// the counterpart's name for the member: an identifier where the counterpart is named, an index where it is positional
 fn rename(host: usize, marker: usize) -> String {
-    if host == 1 || host == 3 { format!("{}", 40 + marker) } else { format!("r{}", marker) }
+    match host {
+        1 | 3 => format!("{}", 40 + marker),
+        4 => format!("R{}", marker),
+        _ => format!("r{}", marker),
+    }
 }
 
 pub fn to_item(instrs: &[MInstr]) -> crate::item::Item {
@@ -68,20 +78,34 @@ pub fn to_item_on(instrs: &[MInstr], host: usize) -> crate::item::Item {
     use crate::item::{Field, Instr, Item, Shape, Variant};
     let positional = host == 1 || host == 3;
     let mut a = if positional { Field::pos("i32") } else { Field::named("a", "i32") };
+    let mut vattrs = vec![];
+    let mut nested = String::new();
     for i in instrs {
-        let body = if i.ghost { format!("{{ {} }}", 1000 + i.marker) } else { format!("{}, ~ + {}", rename(host, i.marker), 1000 + i.marker) };
-        a.attrs.push(Instr::new(&i.name, i.ded.as_deref(), &body));
+        match host {
+            4 => {
+                // variant-level: rename + expression block (no `~` at this level)
+                let body = if i.ghost { format!("{{ {} }}", 1000 + i.marker) } else { format!("{}, {{ {} }}", rename(host, i.marker), 1000 + i.marker) };
+                vattrs.push(Instr::new(&i.name, i.ded.as_deref(), &body));
+            }
+            5 => nested.push_str(&format!("[{}({}, ~ + {})] ", i.name, rename(host, i.marker), 1000 + i.marker)),
+            _ => {
+                let body = if i.ghost { format!("{{ {} }}", 1000 + i.marker) } else { format!("{}, ~ + {}", rename(host, i.marker), 1000 + i.marker) };
+                a.attrs.push(Instr::new(&i.name, i.ded.as_deref(), &body));
+            }
+        }
     }
     let b = if positional { Field::pos("i32") } else { Field::named("b", "i32") };
     let mut it = match host {
         0 => Item::new_struct("S", Shape::Named, vec![a, b]),
         1 => Item::new_struct("S", Shape::Tuple, vec![a, b]),
+        4 => Item::new_enum("S", vec![Variant { attrs: vattrs, name: "V".into(), shape: Shape::Tuple, fields: vec![Field::pos("i32")] }, Variant { attrs: vec![], name: "W".into(), shape: Shape::Unit, fields: vec![] }]),
+        5 => Item::new_struct("S", Shape::Named, vec![Field { attrs: vec![Instr::new("parent", None, &format!("{}pa, pb", nested))], name: Some("p".into()), ty: "P".into() }, b]),
         _ => Item::new_enum("S", vec![Variant { attrs: vec![], name: "V".into(), shape: if host == 2 { Shape::Named } else { Shape::Tuple }, fields: vec![a, b] }, Variant { attrs: vec![], name: "W".into(), shape: Shape::Unit, fields: vec![] }]),
     };
     for cp in ["T", "U"] {
         it.attrs.push(Instr::new("map", None, cp));
         it.attrs.push(Instr::new("try_map", None, &format!("{}, Er", cp)));
-        if host < 2 {
+        if !host_is_enum(host) {
             // (into_existing on an enum is a known finding of C16/C17: the enum hosts carry the 8 From/Into kinds)
             it.attrs.push(Instr::new("into_existing", None, cp));
             it.attrs.push(Instr::new("try_into_existing", None, &format!("{}, Er", cp)));
@@ -108,6 +132,9 @@ impl Space for Prec {
             let n = ctx.choose(names.len() + gnames.len());
             let (name, ghost) = if n < names.len() { (names[n].to_string(), false) } else { (gnames[n - names.len()].to_string(), true) };
             let ded = [None, Some("T".to_string()), Some("U".to_string())][ctx.choose(3)].clone();
+            if self.host == 5 && (ghost || ded.is_some() || appl(&name).unwrap().1) {
+                return ctx.reject(); // inside #[parent(..)]: the infallible mapping names, undedicated (the parent instruction itself carries the dedication)
+            }
             let mi = MInstr { name, ded, marker: i + 1, ghost };
             // at most one candidate per (level, bucket): the documentation does not rank two of them
             for o in &instrs {
@@ -195,7 +222,7 @@ pub fn check_case_on(space: &str, c: &Case, choices: &[u32], rep: &Report, host:
     // oracle 1: the winner's marker, and only it, appears in the impl
     for cp in ["T", "U"] {
         for k in Kind::all() {
-            if host >= 2 && !(k.dir.is_from() || matches!(k.dir, Dir::OwnedInto | Dir::RefInto)) {
+            if host_is_enum(host) && !(k.dir.is_from() || matches!(k.dir, Dir::OwnedInto | Dir::RefInto)) {
                 continue;
             }
             let w = expected_winner(&c.instrs, k, cp);
@@ -219,7 +246,9 @@ pub fn check_case_on(space: &str, c: &Case, choices: &[u32], rep: &Report, host:
             let mut problems = vec![];
             for (i, m) in c.instrs.iter().enumerate() {
                 let present = has(m);
-                let should = w == Some(i) && !(m.ghost && !k.dir.is_from()); // a winning ghost makes Into skip the member: no marker at all
+                // a winning ghost makes Into skip the member: no marker at all; a ghost VARIANT is the mirror image: its
+                // action is the Into result and From never produces the variant
+                let should = w == Some(i) && !(m.ghost && (k.dir.is_from() == (host == 4)));
                 if present != should {
                     problems.push(format!("instruction #{} `{}` {} in the impl", i, m.render(), if present { "takes effect (its marker occurs)" } else { "does not take effect (its marker is missing)" }));
                 }
@@ -258,7 +287,7 @@ pub fn check_case_on(space: &str, c: &Case, choices: &[u32], rep: &Report, host:
             };
             for cp in ["T", "U"] {
                 for k in Kind::all() {
-                    if host >= 2 && !(k.dir.is_from() || matches!(k.dir, Dir::OwnedInto | Dir::RefInto)) {
+                    if host_is_enum(host) && !(k.dir.is_from() || matches!(k.dir, Dir::OwnedInto | Dir::RefInto)) {
                         continue;
                     }
                     if expected_winner(&c.instrs, k, cp) == Some(i) {
@@ -295,7 +324,7 @@ pub fn run(tier: &str) -> i32 {
     run_space(&Prec { max_instr: if tier == "quick" { 2 } else { 3 }, host: 0 }, None, &caps, &rep);
     // the same instruction sets on a tuple-struct member and on payload fields of enum variants (positional renames
     // are indices, payload members are bindings): the selection logic must not depend on where the member lives
-    for host in 1..4 {
+    for host in 1..6 {
         run_space(&Prec { max_instr: 2, host }, None, &caps, &rep);
     }
     run_space(&Lookups, None, &caps, &rep);
